@@ -196,10 +196,16 @@ void Terminal::Impl::executeExitCmd(SessionContext *s, const Args &)
     if (!(s->options & kQuietMode))
         s->wp_conn->send(s->token, "Bye!\r\n");
 
+    //! 会话可能在延后执行前已被销毁（同一行内重复 exit、对端已断开），因此只记录 token，执行时重新查找
+    auto token = s->token;
     wp_loop_->runNext(
-        [this, s] {
-            s->wp_conn->endSession(s->token);
-            deleteSession(s->token);
+        [this, token] {
+            auto s = sessions_.at(token);
+            if (s == nullptr)
+                return;
+
+            s->wp_conn->endSession(token);
+            deleteSession(token);
         },
         __func__
     );
